@@ -31,14 +31,21 @@ TRUSTED = ['rendering of the JSON documents into the reduced Coq types (tools/pr
            'the harness reports the core Solution (routes, unassigned) through public fields of vrp_core::models::Solution',
            'bookkeeping dumps come from the verification hook in insertions.rs (observer after apply_insertion_success, '
            'thread-local: only insertions executed on the solving thread are seen)']
-ASSUMPTIONS = ['problem fragment without required breaks, recharges, relations, clustering (reload and optional-break marker jobs are filtered out of the trace); '
+ASSUMPTIONS = ['problem fragment without required breaks and recharges; relations and vicinity clustering only in the small '
+               'clustering + relation family, whose clustered documents are judged by the accounting twin on the raw JSON '
+               '(reload and optional-break marker jobs are filtered out of the trace); '
                'tasks of the same kind inside one job use different locations (checked: precond_viol)',
                'operator choice (which job, which route) is an oracle argument of the bookkeeping model; ruin/removal steps '
                'are validated only through the end-to-end document, not step by step']
 
 
 def generate(rng, tier, n):
-    return e2e.gen_cases(rng, n, per_problem=3, trace=TRACE, allow=('tdm',))
+    # plus a few cases of the RING family (a job with 3 pickups and 2 deliveries alternating around a hexagon, 200-400 generations:
+    # "pickups before deliveries" after the LKH operator re-sequenced the tour); own forked stream, the other cases are unchanged
+    return e2e.gen_cases(rng, n, per_problem=3, trace=TRACE, allow=('tdm',)) \
+        + e2e.gen_ring_cases(rng.fork('ring-multi'), max(6, n // 100), trace=TRACE) \
+        + e2e.gen_cluster_relation_cases(rng.fork('cluster-relation'), max(8, n // 60))     # no bookkeeping trace: the core
+    # solution works on the CLUSTERED problem (cluster jobs stand for their members), the trace model is about plan jobs
 
 
 def _sol(impl):
@@ -155,7 +162,7 @@ def nontrivial_key(c, impl):
 
 def classify(c, impl):
     cfg = c['config']
-    labs = ['result=' + e2e.outcome(impl), 'generations=%s' % ('0' if cfg['max_generations'] == 0 else '1-3' if cfg['max_generations'] <= 3 else '4-20'),
+    labs = ['result=' + e2e.outcome(impl), 'generations=%s' % ('0' if cfg['max_generations'] == 0 else '1-3' if cfg['max_generations'] <= 3 else '4-20' if cfg['max_generations'] <= 20 else '21+'),
             'parallelism=%s' % ('default' if cfg['parallelism'] is None else 'x'.join(map(str, cfg['parallelism']))),
             'quota=%s' % ('never' if cfg['quota_after_polls'] is None else 'fires')]
     s = _sol(impl)
@@ -166,6 +173,13 @@ def classify(c, impl):
         if any(len(e2e.tasks_of(j)) > 1 and any(j['id'] in t for t in tours) for j in c['problem']['plan']['jobs']):
             labs.append('multi-job-assigned')
         labs.append('trace-states=%s' % ('0' if not impl.get('trace') else '1+'))
+        # documents the Coq rendering cannot express (commute / parking of a vicinity cluster ...): judged by the accounting
+        # twin on the raw JSON only, and counted here
+        why = e2e.unsupported(c, s)
+        labs.append('rendered=%s' % ('yes' if not why else 'no:' + str(why)[:40]))
+    for fam in ('ring', 'clustering'):
+        if fam in ((c.get('meta') or {}).get('features') or []):
+            labs.append('family=' + fam)
     if e2e.outcome(impl) == 'panic':
         labs.append('panic=' + e2e.panic_class(c, str((impl or {}).get('panic'))))
     elif isinstance(impl, dict) and 'error' in impl:
